@@ -820,6 +820,8 @@ class _GzipMessageDelegate(httputil.HTTPMessageDelegate):
             ):
                 # flush() does not complain about a stream that simply stops.
                 raise httputil.HTTPInputError("truncated gzip body")
+            if self._decompressor.decompressobj.unused_data:
+                raise httputil.HTTPInputError("data after the end of the gzip body")
         return self._delegate.finish()
 
     def on_connection_close(self) -> None:
